@@ -78,6 +78,14 @@ Theorem C04_check_left_covers : forall s i,
 Proof. exact check_left_covers. Qed.
 Print Assumptions C04_check_left_covers.
 
+(* the one-site tests behind check_left/right_canonical: Matrix.check_lortho and Matrix.check_rortho hand their
+   relative tolerance to allclose's rtol and their absolute tolerance to allclose's atol -- both, identically
+   (generated from the call, positional or keyword; defaults canonical_rtol / canonical_atol checked structurally) *)
+Theorem C04_ortho_tolerances_symmetric : forall (A : Type) (rtol atol : A),
+  lortho_tol rtol atol = (rtol, atol) /\ rortho_tol rtol atol = (rtol, atol).
+Proof. exact ortho_tolerances_symmetric. Qed.
+Print Assumptions C04_ortho_tolerances_symmetric.
+
 (* ------------------------------------------------------------------------------------------------ *)
 (* one push step and the sweep                                                                      *)
 (* ------------------------------------------------------------------------------------------------ *)
